@@ -26,6 +26,7 @@ import (
 	"verif/harness/internal/drive/keys"
 	dl17 "verif/harness/internal/drive/lindell17"
 	dl22 "verif/harness/internal/drive/lindell22"
+	dotv "verif/harness/internal/drive/otvole"
 	dred "verif/harness/internal/drive/redistribute"
 	dsess "verif/harness/internal/drive/session"
 	"verif/harness/internal/vh"
@@ -416,6 +417,35 @@ func runL17() func(int64, map[sharing.ID]string) *obs {
 	}
 }
 
+// ---- OT and VOLE on their own ----------------------------------------------------------
+
+func runOtVole(kind string, xi, l int) func(int64, map[sharing.ID]string) *obs {
+	return func(seed int64, labels map[sharing.ID]string) *obs {
+		res := dotv.RunFull(dotv.Config{Seed: seed, Prop: prop, Labels: labels, Kind: kind, Xi: xi, L: l})
+		o := &obs{Proto: kind, IDs: idsN(2), Tr: res.Trace, Order: res.Order, BaseMul: res.BaseMul, Extra: map[string]string{}}
+		if res.SetupErr != "" {
+			o.Err = res.SetupErr
+			return o
+		}
+		if e := o.allOK(); e != "" {
+			o.Err = e
+			return o
+		}
+		if res.Trace.Outputs[1] == "" || res.Trace.Outputs[2] == "" {
+			o.Err = "no output"
+			return o
+		}
+		switch kind {
+		case "ecbbot":
+			o.Joint = append(o.Joint, kv{"sender-pads", outField(res.Trace.Outputs[1], "pads")}, kv{"receiver-chosen", outField(res.Trace.Outputs[2], "chosen")})
+		case "rvole-bbot":
+			o.Joint = append(o.Joint, kv{"alice-c", outField(res.Trace.Outputs[1], "c")}, kv{"bob-d", outField(res.Trace.Outputs[2], "d")})
+			o.Extra["bob-b"] = outField(res.Trace.Outputs[2], "b")
+		}
+		return o
+	}
+}
+
 func protocols(tier string) []protoSpec {
 	n, t := 3, 2
 	// the OT-based protocols cost (n-1) base-OT batches per party and run: fewer parties there
@@ -437,9 +467,12 @@ func protocols(tier string) []protoSpec {
 		{Name: "lindell22-mina", N: n, D: t, Family: "lindell22", Signing: true, Run: runL22(n, t, "mina")},
 		{Name: "boldyreva-short-basic", N: n, D: t, Family: "boldyreva", Run: runBls(n, t, "short", "basic")},
 		{Name: "lindell17", N: 2, D: 2, Family: "lindell17", Signing: true, Heavy: true, Run: runL17()},
+		{Name: "ot-ecbbot", N: 2, D: 2, Family: "ot", Run: runOtVole("ecbbot", 128, 1)},
 	}
 	if tier == "thorough" {
 		ps = append(ps,
+			// rvole/bbot on its own (the quick tier reaches it through dkls23-bbot)
+			protoSpec{Name: "rvole-bbot", N: 2, D: 2, Family: "vole", Heavy: true, Run: runOtVole("rvole-bbot", 0, 2)},
 			protoSpec{Name: "lindell22-schnorr-p256", N: n, D: t, Family: "lindell22", Signing: true, Run: runL22(n, t, "schnorr-p256")},
 			protoSpec{Name: "lindell22-schnorr-k256-neg", N: n, D: t, Family: "lindell22", Signing: true, Run: runL22(n, t, "schnorr-k256-neg")},
 			protoSpec{Name: "dkls23-bbot-p256", N: 2, D: 2, Family: "dkls23-bbot", Signing: true, Heavy: true, Run: runDkls(2, 2, "bbot", "p256")},
